@@ -3,44 +3,6 @@ From Coq Require Import List Bool Arith ZArith Lia.
 From QV Require Import Base.Mat C03.ModelSamples C03.ModelProbs C03.ModelResult C03.ProofsResult C14.Model.
 Import ListNotations.
 
-(* ---------- the statement "every result stands alone" is false of the faithful model *)
-Definition wit_cfg : config := mkcfg 1 [[0]].
-(* r1 = c(|0>, nshots=1); r2 = c(|1>, nshots=1); r1.samples(binary=False) draws [0];
-   r2.samples(binary=False) draws nothing *)
-Definition wit_h : list op :=
-  [Exec [1; 0]%Z 1; Exec [0; 1]%Z 1; Samples 0 false false [0]; Samples 1 false false []].
-
-Lemma wit_cfg_wf : cfg_wf wit_cfg.
-Proof.
-  split; [discriminate|]. split.
-  - cbn. constructor; [intros []|constructor].
-  - cbn. intros q [<-|[]]. lia.
-Qed.
-
-Lemma wit_outputs :
-  fst (run wit_cfg (init wit_cfg) wit_h) = [ODone; ODone; OSamplesDec [0]; OSamplesDec [0]].
-Proof. vm_compute. reflexivity. Qed.
-
-Lemma wit_not_standalone : ~ standalone wit_cfg wit_h.
-Proof.
-  unfold standalone.
-  assert (E : run wit_cfg (init wit_cfg) wit_h =
-              ([ODone; ODone; OSamplesDec [0]; OSamplesDec [0]],
-               snd (run wit_cfg (init wit_cfg) wit_h))).
-  { rewrite <- wit_outputs. now destruct (run wit_cfg (init wit_cfg) wit_h). }
-  rewrite E. intros H.
-  assert (HR : nth_error (m_results (snd (run wit_cfg (init wit_cfg) wit_h))) 1
-               = Some (mkr [0; 1]%Z 1 [0; 1]%Z (Some [[false]]) None)).
-  { vm_compute. reflexivity. }
-  destruct (H 1 _ HR) as [sh [Hs He]].
-  specialize (He 3 (Samples 1 false false []) (OSamplesDec [0]) eq_refl eq_refl eq_refl).
-  cbn [explains] in He. subst sh.
-  assert (Hsam : sampled 1 wit_h).
-  { exists (Samples 1 false false []). split; [cbn; tauto | split; reflexivity]. }
-  destruct (Hs Hsam) as [_ HF]. cbn [r_w r_nshots] in HF.
-  inversion HF as [|? ? [_ Hnz] _]; subst. apply Hnz. vm_compute. reflexivity.
-Qed.
-
 (* ---------- seeding *)
 Section Seed.
   Variable G : Type.
@@ -82,59 +44,10 @@ Proof.
     destruct IH as [H1 H2]. split; [exact H1|]. rewrite H2, <- app_assoc. reflexivity.
 Qed.
 
-(* ---------- a circuit object that is executed once (e.g. a deep copy per task) *)
-Lemma hist_wf_no_exec cfg nres h :
-  forallb (fun o => match o with Exec _ _ => false | _ => true end) h = true ->
-  hist_wf cfg nres h = true ->
-  forallb (fun o => match target o with Some r => r <? nres | None => true end) h = true.
-Proof.
-  induction h as [|o h IH]; intros Hne Hwf; [reflexivity|].
-  cbn [forallb hist_wf] in *. apply andb_true_iff in Hne. destruct Hne as [Ho Hne].
-  apply andb_true_iff in Hwf. destruct Hwf as [Hop Hwf].
-  apply andb_true_iff. split.
-  - destruct o; cbn [target op_wf] in *; try reflexivity; try exact Hop.
-    apply andb_true_iff in Hop. destruct Hop as [Hop _]. apply andb_true_iff in Hop. tauto.
-  - apply IH; [exact Hne|]. destruct o; try exact Hwf. discriminate.
-Qed.
-
+(* ---------- a circuit object that is executed once: special case of the general theorem *)
 Lemma one_execution cfg w ns h :
   cfg_wf cfg ->
-  forallb (fun o => match o with Exec _ _ => false | _ => true end) h = true ->
   hist_wf cfg 0 (Exec w ns :: h) = true ->
   oracles_ok cfg (init cfg) (Exec w ns :: h) = true ->
   standalone cfg (Exec w ns :: h).
-Proof.
-  intros Hcfg Hne Hwf Hor. apply (single_reader_standalone cfg 0 Hcfg); try assumption.
-  cbn [single_reader forallb andb]. cbn [hist_wf op_wf andb] in Hwf.
-  pose proof (hist_wf_no_exec cfg 1 h Hne Hwf) as Ht.
-  rewrite forallb_forall in *. intros o Hin. specialize (Ht o Hin).
-  destruct o; cbn [target] in Ht; try reflexivity; apply Nat.eqb_eq; apply Nat.ltb_lt in Ht; lia.
-Qed.
-
-(* ---------- the 4-operation witness is minimal: every history of at most 3 operations reads
-   at most one result, hence stands alone *)
-Definition first_reader (h : list op) : nat :=
-  match filter needs_shots h with
-  | o :: _ => match target o with Some r => r | None => 0 end
-  | [] => 0
-  end.
-
-Lemma short_single_reader cfg h :
-  length h <= 3 -> hist_wf cfg 0 h = true -> single_reader (first_reader h) h = true.
-Proof.
-  intros Hlen Hwf.
-  destruct h as [|a [|b [|c [|d t]]]]; [reflexivity | | | | cbn [length] in Hlen; lia].
-  all: destruct a; try destruct b; try destruct c;
-    cbn [hist_wf op_wf single_reader forallb first_reader filter needs_shots target andb] in *;
-    repeat rewrite andb_true_iff in *; repeat rewrite Nat.ltb_lt in *; repeat rewrite Nat.eqb_eq in *;
-    try reflexivity; try lia; repeat split; try reflexivity; try lia.
-Qed.
-
-Lemma short_histories_standalone cfg h :
-  cfg_wf cfg -> length h <= 3 -> hist_wf cfg 0 h = true -> oracles_ok cfg (init cfg) h = true ->
-  standalone cfg h.
-Proof.
-  intros Hcfg Hlen Hwf Hor.
-  apply (single_reader_standalone cfg (first_reader h) Hcfg h Hwf Hor).
-  now apply (short_single_reader cfg).
-Qed.
+Proof. intros Hcfg Hwf Hor. now apply all_histories_standalone. Qed.
